@@ -3,6 +3,7 @@ package main
 import (
 	"fmt"
 	"math/big"
+	"net"
 	"math/rand"
 	"os"
 	"strconv"
@@ -129,12 +130,56 @@ func encField(s string) string {
 		return "M@" + s
 	}
 	c, ok := canon.FromIPNet(n)
-	if !ok || n.String() != s {
-		// parses, but not to a plain network in canonical form (IPv4-mapped, unmasked, upper case ...): outside the
-		// modelled input domain; only the robustness stream uses such strings and does not compare them with the model
+	if !ok {
+		// parses, but not to a plain network (IPv4-mapped ...): outside the modelled input domain; only the
+		// robustness stream uses such strings and does not compare them with the model
 		return "X@" + s
 	}
+	if n.String() != s {
+		// another spelling of a plain network (unmasked host bits, upper case, leading zeros): the code under test
+		// only ever parses it, so the model is given the parsed network and its canonical label; the spelling
+		// travels behind "~" and is what the API object carries
+		return c.Tok() + "@" + n.String() + "~" + s
+	}
 	return c.Tok() + "@" + n.String()
+}
+
+// respell: another spelling of the same network (host bits set for IPv4, upper case for IPv6), or the string itself
+func respell(rng *rand.Rand, s string) string {
+	if s == "" || rng.Intn(6) != 0 {
+		return s
+	}
+	return respellForce(s)
+}
+
+func respellForce(s string) string {
+	ip, n, err := parseCIDR(s)
+	if err != nil || n.String() != s {
+		return s
+	}
+	ones, bits := n.Mask.Size()
+	if bits == 32 && ones < 32 {
+		b := ip.To4()
+		b[3] |= 1
+		return fmt.Sprintf("%s/%d", net.IP(b).String(), ones)
+	}
+	return strings.ToUpper(s)
+}
+
+// spellNodeToks: now and then a node's pod CIDR is written another way ("tok~spelling")
+func (g *gen) spellNodeToks(cs string) string {
+	if cs == "-" {
+		return cs
+	}
+	parts := strings.Split(cs, ",")
+	for i, t := range parts {
+		if c, ok := tokToCidr(t); ok && g.rng.Intn(5) == 0 {
+			if r := respellForce(c.String()); r != c.String() {
+				parts[i] = t + "~" + r
+			}
+		}
+	}
+	return strings.Join(parts, ",")
 }
 
 // encFieldHB: as encField; a range cut into more than 2^12 blocks is exercised for robustness only (the model keeps
@@ -159,6 +204,9 @@ func decField(f string) string {
 		return "not-a-cidr"
 	case strings.HasPrefix(f, "M@") || strings.HasPrefix(f, "X@"):
 		return f[2:]
+	}
+	if t := strings.Index(f, "~"); t >= 0 {
+		return f[t+1:]
 	}
 	at := strings.Index(f, "@")
 	c, _ := tokToCidr(f[:at])
@@ -189,6 +237,11 @@ func parseCidrToks(s string) []string {
 	for _, t := range strings.Split(s, ",") {
 		if strings.HasPrefix(t, "?") {
 			out = append(out, t[1:])
+			continue
+		}
+		if k := strings.Index(t, "~"); k >= 0 {
+			// a pod CIDR spelled another way (the spelling the Node object carries follows "~")
+			out = append(out, t[k+1:])
 			continue
 		}
 		c, ok := tokToCidr(t)
@@ -580,6 +633,11 @@ func ccLine(p ccPlan) string {
 	return fmt.Sprintf("ccAdd %s %d %s %s %s", p.name, p.hb, encField(p.v4), encField(p.v6), encRawSel(p.sel))
 }
 
+// ccLineSpelled: as ccLine, the ranges now and then written another way
+func (g *gen) ccLineSpelled(p ccPlan) string {
+	return fmt.Sprintf("ccAdd %s %d %s %s %s", p.name, p.hb, encField(respell(g.rng, p.v4)), encField(respell(g.rng, p.v6)), encRawSel(p.sel))
+}
+
 // presetFor returns pod CIDRs a pre-existing node may hold: whole blocks (or multiples) of some planned
 // ClusterCIDR, such that every planned range meeting them sees whole multiples of its own block; or a CIDR outside all.
 func (g *gen) presetFor(labels string) string {
@@ -925,7 +983,7 @@ func genHistory(o *Out, rng *rand.Rand, id int, length int, profile string) []st
 	for _, pi := range perm {
 		p := g.plans[pi]
 		if rng.Intn(3) > 0 {
-			g.do(ccLine(p))
+			g.do(g.ccLineSpelled(p))
 			created[p.name] = true
 			if rng.Intn(7) == 0 {
 				g.do(fmt.Sprintf("ccGen %s 2", p.name))
@@ -940,7 +998,7 @@ func genHistory(o *Out, rng *rand.Rand, id int, length int, profile string) []st
 		cs := "-"
 		ls := labelPalette[rng.Intn(len(labelPalette))]
 		if rng.Intn(2) == 0 {
-			cs = g.presetFor(ls)
+			cs = g.spellNodeToks(g.presetFor(ls))
 		}
 		g.do(fmt.Sprintf("nodeAdd %s %s %s", n, ls, cs))
 	}
@@ -973,7 +1031,7 @@ func genHistory(o *Out, rng *rand.Rand, id int, length int, profile string) []st
 			cs := "-"
 			ls := labelPalette[rng.Intn(len(labelPalette))]
 			if rng.Intn(5) == 0 {
-				cs = g.presetFor(ls)
+				cs = g.spellNodeToks(g.presetFor(ls))
 			}
 			g.do(fmt.Sprintf("nodeAdd %s %s %s", n, ls, cs))
 		case x < 14:
@@ -990,7 +1048,7 @@ func genHistory(o *Out, rng *rand.Rand, id int, length int, profile string) []st
 			}
 		case x < 23:
 			p := g.plans[rng.Intn(len(g.plans))]
-			g.do(ccLine(p))
+			g.do(g.ccLineSpelled(p))
 		case x < 28:
 			if ks := sortedMapKeys(w.ccs); len(ks) > 0 {
 				g.do("ccDel " + ks[rng.Intn(len(ks))])
@@ -1297,7 +1355,7 @@ func (g *gen) lifeHistory() {
 	}
 	for _, p := range g.plans {
 		if _, ok := w.ccs[p.name]; !ok {
-			g.do(ccLine(p))
+			g.do(g.ccLineSpelled(p))
 		}
 	}
 	settleCC()
